@@ -37,7 +37,13 @@ PROPS = {
                   "AS_PATH/AGGREGATOR values must return the original (confed 4-octet members excepted) and the 2-octet form "
                   "must re-parse and validate; for independently generated (AS_PATH, AS4_PATH) pairs the reconstruction is "
                   "checked against invariants (no empty/over-long segment, never longer, longer AS4_PATH ignored)."),
-        "note": "Trusts the BGP parser for wire validity of the 2-octet form; bounded to <=6 segments per path.",
+        "note": ("Trusts the BGP parser for wire validity of the 2-octet form; bounded to <=6 segments per path. Wire level "
+                 "(TestVerifC14_server): routes whose AS_PATH / AGGREGATOR carry 4-octet AS numbers are added to a BgpServer in one "
+                 "batch (1 to 2100 prefixes per attribute set, so that one set is split over several UPDATEs) and sent to an observer "
+                 "without (control: with) the 4-octet-AS capability; every UPDATE is parsed under the session's options and every "
+                 "route is reconstructed with the harness' own RFC 6793 4.2.3 merge: it must equal the stored path with the local AS "
+                 "prepended and the stored AGGREGATOR, nothing may be missing, no AS above 65535 may appear in AS_PATH/AGGREGATOR of a "
+                 "2-octet session and no AS4_* attribute on a 4-octet one."),
         "technique": "property-based testing (rapid): round-trip and invariant oracles",
         "rule": ("rapid draws (i) an RFC-valid AS_PATH (leading confed run, then SEQ/SET segments of 1..255 members, "
                  "sizes biased to 1-4/254/255, 2- and 4-octet members incl. AS_TRANS) with optional AGGREGATOR, or (ii) an "
@@ -48,6 +54,7 @@ PROPS = {
                         "path length = SEQUENCE members + 1 per SET, confederation segments not counted"],
         "units": [
             {"pkg": T, "test": "TestVerifC14", "quick": (8, 40000), "thorough": (16, 400000)},
+            {"pkg": S, "test": "TestVerifC14_server", "quick": (8, 60), "thorough": (16, 4000), "timeout_q": 1500},
         ],
     },
     "C03": {
